@@ -754,8 +754,12 @@ pub fn op_rel(p: &Pointer, q: &Pointer) -> String {
         fn toks(t: &str) -> Vec<&str> { let mut it = t.split('/'); it.next(); if t.is_empty() { Vec::new() } else { it.collect() } }
         for whole in [p, q] {
             let text = whole.as_str();
-            let seps: Vec<usize> = text.bytes().enumerate().filter(|(_, b)| *b == b'/').map(|(i, _)| i).collect();
-            for idx in sample_positions(seps.len().saturating_sub(1), 6) {
+            // cut positions: every separator, and also positions INSIDE tokens (a head such as "/a" cut out of
+            // "/ab" starts at the same address but does not end on a token boundary of the whole)
+            let mut seps: Vec<usize> = text.bytes().enumerate().filter(|(_, b)| *b == b'/').map(|(i, _)| i).collect();
+            for k in sample_positions(text.len(), 8) { if text.is_char_boundary(k) && !seps.contains(&k) { seps.push(k); } }
+            seps.sort_unstable();
+            for idx in sample_positions(seps.len().saturating_sub(1), 10) {
                 let cut = match seps.get(idx) { Some(c) => *c, None => continue };
                 for v in [Pointer::parse(&text[..cut]), Pointer::parse(&text[cut..])].into_iter().flatten() {
                     let (tw, tv) = (toks(text), toks(v.as_str()));
